@@ -53,7 +53,7 @@ KANI = {
     },
     # bounded companion of the Verus unit ratio_to_float on the real rational/src/convert.rs (Repr::to_f32/to_f64,
     # TryFrom<Repr> for UBig/IBig, TryFrom<RBig> for f32/f64).  The double-rounding region (see _RATIO_NOTE) is assumed
-    # away in the to_f32/to_f64 harnesses.  The harness file also contains four harnesses of kind 'finding' that FAIL on
+    # away in the to_f32/to_f64 harnesses.  The harness file also contains two harnesses of kind 'finding' that FAIL on
     # the unchanged tree (they witness genuine defects); they are listed in _RATIO_FINDINGS and must be moved into
     # 'harnesses' together with `known:` entries in known_findings.txt (or dropped once /repo is fixed).
     'ratio_to_float_k': {
@@ -71,6 +71,8 @@ KANI = {
             'vk_ratio_to_float_k_to_ibig': {'kind': 'bounded', 'bound': '|num| < 2^15, den = any of 1..=15 (non-integer value if den > 1)'},
             'vk_ratio_to_float_k_try_f32': {'kind': 'bounded', 'bound': 'num = any i32, den = 2^k, k in {0, 1, 126, 149, 150, 181}'},
             'vk_ratio_to_float_k_try_f64': {'kind': 'bounded', 'bound': 'num = any i64, den = 2^k, k in {0, 1, 64}'},
+            'vk_ratio_to_float_k_try_f32_wide_num': {'kind': 'bounded', 'bound': 'num = any i64 outside i32, den = 1'},
+            'vk_ratio_to_float_k_try_f64_wide_num': {'kind': 'bounded', 'bound': '2^63 <= |num| < 2^64, den = 1'},
         },
     },
 }
@@ -81,10 +83,6 @@ _RATIO_FINDINGS = {
         'note': 'double rounding in Repr::to_f32: 117440522/7 = 16777217.43 -> Inexact(16777216.0, Negative), correct 16777218.0'},
     'vk_ratio_to_float_k_finding_f64_double_rounding': {'kind': 'finding', 'bound': 'as f64_critical, inside the region',
         'note': 'double rounding in Repr::to_f64: ((2^53+1)*7+3)/7 -> Inexact(2^53, Negative), correct 2^53+2'},
-    'vk_ratio_to_float_k_finding_try_f32_wide_num': {'kind': 'finding', 'bound': 'num = any i64 outside i32, den = 1',
-        'note': 'TryFrom<RBig> for f32 unwraps numerator -> i32: f32::try_from(RBig 2^31) panics'},
-    'vk_ratio_to_float_k_finding_try_f64_wide_num': {'kind': 'finding', 'bound': '2^63 <= |num| < 2^64, den = 1',
-        'note': 'TryFrom<RBig> for f64 unwraps numerator -> i64: f64::try_from(RBig 2^63) panics'},
 }
 
 PROP_UNITS = {
